@@ -241,11 +241,15 @@ def run_case(case):
         res.obs("interrupted_run", {"fault": f, "rc": r1.rc, "interruption": interruption, "accepted_before": accepted_before, "accepted_in_that_run": accepted_now, "state_files_after": proj.state_files()})
         ctx = {"sched": sched, "fault": f, "rc1": r1.rc, "interruption": interruption, "accepted_in_faulty_run": accepted_now, "accepted_before": accepted_before, "err1": r1.err[-400:]}
 
+        last_accepted = subs1[-1]["name"] if subs1 else None
+
         def mech(base, involved):
-            # hard kill: the ids accepted IN THAT RUN are lost (recorded finding).  Jobs accepted by earlier,
-            # completed invocations are not covered: forgetting those is a different defect.
-            if interruption == "kill" and accepted_now and set(involved) <= set(accepted_now):
-                return "ids-lost-on-hard-kill"
+            # The one window gwf cannot close: killed after the scheduler accepted a job but before gwf had
+            # recorded that job's id (reply not read yet / state write of exactly that id not finished).
+            # Only that single in-flight job may be forgotten (recorded finding); everything accepted
+            # earlier in the run - or in earlier invocations - has to be remembered.
+            if interruption == "kill" and last_accepted is not None and involved and set(involved) <= {last_accepted}:
+                return "inflight-id-lost-on-hard-kill"
             return base
 
         # the interrupted run itself must not submit a second job for a target whose earlier job is pending
